@@ -113,11 +113,16 @@ def part_exclude_event(eid, K, xs, judge=("kuu", "kuk", "kku", "kkk"), via="attr
     """K: float matrix; xs: list of dofs.  Calls the real exclude_dofs_matrix."""
     cc = cc_for_size(3)
     cc.excluded_dofs = list(xs)
-    out = cc.exclude_dofs_matrix(np.array(K, dtype=float), return_kkk=True, return_kku=True, return_kuk=True)
-    obs = dict(kuu=dy_mat(out["kuu"].toarray()) if out["kuu"].shape[0] else [],
-               kuk=dy_mat(out["kuk"]), kku=dy_mat(out["kku"]), kkk=dy_mat(out["kkk"]))
+    raised = "no"
+    try:
+        out = cc.exclude_dofs_matrix(np.array(K, dtype=float), return_kkk=True, return_kku=True, return_kuk=True)
+        obs = dict(kuu=dy_mat(out["kuu"].toarray()) if out["kuu"].shape[0] else [],
+                   kuk=dy_mat(out["kuk"]), kku=dy_mat(out["kku"]), kkk=dy_mat(out["kkk"]))
+    except Exception as ex:      # an exception of the code under test is an observation: nothing returned
+        raised = type(ex).__name__
+        obs = dict(kuu=[[[1, [1], 0]]], kuk=[[[1, [1], 0]]], kku=[], kkk=[])
     return dict(id=eid, kind="exclude", K=dy_mat(K), xs=list(xs), judge=list(judge), obs=obs, via=via,
-                n=len(K))
+                n=len(K), raised=raised)
 
 
 def part_fullc_event(eid, n, xs, cks, inc, vec):
@@ -127,9 +132,13 @@ def part_fullc_event(eid, n, xs, cks, inc, vec):
         return None
     cc.excluded_dofs = list(xs)
     cc.excluded_dofs_ck = [float(c) for c in cks]
-    got = cc.calc_full_c(np.array([float(v) for v in vec], dtype=float), inc=float(inc))
+    raised = "no"
+    try:
+        got = cc.calc_full_c(np.array([float(v) for v in vec], dtype=float), inc=float(inc))
+    except Exception as ex:
+        raised, got = type(ex).__name__, []
     return dict(id=eid, kind="fullc", size=n, xs=list(xs), cks=[rat(c) for c in cks], inc=rat(inc),
-                cu=[rat(v) for v in vec], obs=dy_list(got))
+                cu=[rat(v) for v in vec], obs=dy_list(got), raised=raised)
 
 
 def part_k0_events(eid0, tier, rng):
@@ -212,7 +221,8 @@ def partition_section(rep, tier, seed, rng):
         rep.machinery("vacuity: the partition model did not produce Exclude, Insert and Scale transitions: %s" % ops)
     add_selftests(events, [("exclude", lambda e: e["n"] > 4 and len(e["xs"]) == 1), ("fullc", lambda e: e["size"] >= 6)])
     verdicts, results, problems = validate_trace("c18-trp", "Trace_ShellPartition",
-                                                 "CONSTANTS Tier = \"%s\"\nDev = {}\n" % tier, events, timeout=1500)
+                                                 "CONSTANTS Tier = \"%s\"\nDev = {}\n" % tier, events, timeout=1500,
+                                                 nproc=6 if tier == "quick" else 16)
     for res in results:
         rep.add_tlc("Trace_ShellPartition", res)
     for p in problems:
@@ -356,7 +366,8 @@ def geometry_section(rep, tier, seed, rng):
         rep.machinery("vacuity: geometry lattice lacks subsets / Fc / repeated rebuilds: %s" % sorted(subsets))
     add_selftests(events, [("rebuild", lambda e: e["expect"] == "built" and e["raised"] == "no")])
     verdicts, results, problems = validate_trace("c18-trg", "Trace_ShellGeometry",
-                                                 "CONSTANTS Tier = \"%s\"\nDev = {}\nTol = 40\n" % tier, events, timeout=1500)
+                                                 "CONSTANTS Tier = \"%s\"\nDev = {}\nTol = 40\n" % tier, events, timeout=1500,
+                                                 nproc=6 if tier == "quick" else 16)
     for res in results:
         rep.add_tlc("Trace_ShellGeometry", res)
     for p in problems:
@@ -448,7 +459,7 @@ def load_event(eid, d, inc, kuk=None, observed=False, pre=0):
             fext = cc.calc_fext(inc=float(inc), kuk=np.array(kuk, dtype=float), silent=True)
         if key not in _K0_CACHE:
             _K0_CACHE[key] = (cc.k0, cc.k0uk, cc.k0uu)
-    except NotImplementedError as ex:
+    except Exception as ex:          # the trace spec says whether refusing is what the module prescribes
         raised = type(ex).__name__
     e = dict(id=eid, kind="fext", mode="observed" if observed else "lattice", model=d["model"], m1=d["m1"], m2=d["m2"],
              n2=d["n2"], geo={k: opt(v) for k, v in d["geo"].items()}, ang=dict(s=rat(d["s"]), c=rat(d["c"])),
@@ -550,10 +561,14 @@ def static_event(eid, model, s, c, rng):
              forcesInc=[dict(F=[F(-15), F(0), F(0)], x=F(0), thetadeg=F(30 * k)) for k in range(12)],
              P=F(0) if model.startswith("fsdt") else F(1, 8), Pinc=F(0), T=F(0), Tinc=F(0))
     cc = shell_cc(d)
-    cs = cc.static(silent=True)
-    f = cc.calc_fext(silent=True)
+    try:
+        cs = cc.static(silent=True)
+        f = cc.calc_fext(silent=True)
+    except Exception as ex:
+        return dict(id=eid, kind="static", model=model, alphadeg=cc.alphadeg, n=1, kuu=[], cu=[], f=[dyadic(1.0)],
+                    raised=type(ex).__name__)
     return dict(id=eid, kind="static", model=model, alphadeg=cc.alphadeg, n=len(f), kuu=dy_mat(cc.k0uu.toarray()),
-                cu=dy_list(cs[0]), f=dy_list(f))
+                cu=dy_list(cs[0]), f=dy_list(f), raised="no")
 
 
 def loads_section(rep, tier, seed, rng):
@@ -613,6 +628,7 @@ def loads_section(rep, tier, seed, rng):
         rep.machinery("vacuity: load lattice lacks features %s" % [k for k, v in feats.items() if not v])
     add_selftests(events, [("fext", lambda e: e["mode"] == "lattice" and e["forcesInc"] and e["pdT"] and e["raised"] == "no"),
                            ("static", lambda e: e["alphadeg"] == 0)])
+    n_static = len(events) - n_fext
     verdicts, results, problems = validate_trace(
         "c18-trl", "Trace_ShellLoads", "CONSTANTS Tier = \"%s\"\nDev = {}\nTol = 38\nTolStatic = 30\n" % tier, events,
         timeout=3000)
@@ -658,7 +674,7 @@ def loads_section(rep, tier, seed, rng):
     rep.cov["traces_validated_against_impl"] += len(events)
     rep.cov["evaluations"] += sum(len(e["obs"]) if e["kind"] == "fext" else e["n"] for e in events)
     rep.cov["loads"] = dict(lattice_cases_replayed=n_lat, lattice_cases_enumerated=len(reqs), random=nrand,
-                            static_observed=len(events) - n_fext, verdict_census={"/".join(k): n for k, n in sorted(kinds.items())})
+                            static_observed=n_static, verdict_census={"/".join(k): n for k, n in sorted(kinds.items())})
     small = dict(events[0])
     small["kuk"] = "<%d x 3 exact doubles>" % len(events[0]["kuk"])
     rep.sample(small)
